@@ -43,7 +43,7 @@ def describe(case, obs):
 
 
 def generate(rng, tier):
-    n = 300 if tier == "quick" else 2500
+    n = 500 if tier == "quick" else 2500
     cases = []
     for _ in range(n):
         aligned = rng.random() < 0.4          # every face oriented like the domain
